@@ -364,7 +364,7 @@ def run_case(case, seg, viol, unsound, stats, sample):
         return keys
 
     # --- fault-free reference configuration: plain CBC
-    SIM.reset({"monitor": True})
+    SIM.reset({"max_solves": 4000, "max_wall": 90.0, "monitor": True})
     sols, ev, cns = call()
     stats["runs"] += 1
     nsolves = SIM.solve_index
@@ -415,7 +415,7 @@ def run_case(case, seg, viol, unsound, stats, sample):
             stats["planted_found"] += 1
     # --- adversarial optimum choice
     for a in seg["advs"]:
-        SIM.reset({"adversary": a, "monitor": True})
+        SIM.reset({"max_solves": 4000, "max_wall": 90.0, "adversary": a, "monitor": True})
         sols2, ev2, _ = call()
         stats["runs"] += 1
         adv = per_solution(sols2, ev2, f"adversary:{a}")
@@ -437,7 +437,7 @@ def run_case(case, seg, viol, unsound, stats, sample):
                                         only_adversary=[list(x) for x in sorted(s2 - s1)[:1]], seed=a)})
     # --- history: the same evidence object was used for another structure before (genotype() does that
     #     whenever the structure stage returns several solutions)
-    SIM.reset({"monitor": True})
+    SIM.reset({"max_solves": 4000, "max_wall": 90.0, "monitor": True})
     cov_h = SL.make_coverage(gene, table, profile)
     other = list(cn) + ["1"] if len(cn) < 4 else list(cn)[:-1]
     try:
@@ -453,7 +453,7 @@ def run_case(case, seg, viol, unsound, stats, sample):
                                     fresh=sorted([list(k[0]), sc] for (k, sc) in {(_key(s_), round(s_.score, 4)) for s_ in sols})[:3],
                                     after_history=sorted([list(k[0]), sc] for (k, sc) in hist)[:3])})
     # --- jitter
-    SIM.reset({"jitter": seg["jitter"], "monitor": True})
+    SIM.reset({"max_solves": 4000, "max_wall": 90.0, "jitter": seg["jitter"], "monitor": True})
     sols3, ev3, _ = call()
     stats["runs"] += 1
     j = per_solution(sols3, ev3, "jitter")
@@ -464,7 +464,7 @@ def run_case(case, seg, viol, unsound, stats, sample):
     if nsolves:
         k = frng.randrange(nsolves)
         kind = frng.choice(["infeasible", "abnormal", "not_solved", "incumbent", "verify"])
-        SIM.reset({"faults": [{"at": k, "kind": kind, "seed": k}], "monitor": False})
+        SIM.reset({"max_solves": 4000, "max_wall": 90.0, "faults": [{"at": k, "kind": kind, "seed": k}], "monitor": False})
         sols4, ev4, _ = call()
         stats["runs"] += 1
         stats["faults"] += 1
